@@ -250,6 +250,116 @@ class Canon(object):
         self.pos.add(sb)
         return self.term({sb: 1}, {}, coeff)
 
+    # -- exp / log ---------------------------------------------------------
+    def _exp_of(self, l):
+        """exp(c0 + sum q_k M_k) = e^c0 * prod E(M_k)^q_k with positive
+        opaque bases E(M_k); exp(q log b) = b^q for a positive base b."""
+        num, den = {}, {}
+
+        def put(b, e):
+            self.pos.add(b)
+            self.nz.add(b)
+            tgt = num if e > 0 else den
+            tgt[b] = tgt.get(b, 0) + abs(e)
+        if l.const != 0:
+            put(intern_key(('expc', l.const)), 1)
+        for k, q in l.coef.items():
+            n, d = _parts(k)
+            if len(n) == 1 and not d and list(n.values()) == [1] and \
+                    _KIND.get(list(n)[0]) == 'logb' and q.denominator == 1:
+                inner = _KEY[list(n)[0]][1]
+                tgt = num if q > 0 else den
+                tgt[inner] = tgt.get(inner, 0) + abs(int(q))
+                continue
+            if q.denominator == 1:
+                put(intern_key(('expm', k)), int(q))
+            else:
+                put(intern_key(('expq', k, q)), 1)
+        if not num and not den:
+            return Lin(Fraction(1))
+        return self.term(num, den, Fraction(1))
+
+    def _log_const(self, c):
+        """log of a positive rational as a combination of log(prime)."""
+        out = Lin()
+        for val, sign in ((c.numerator, 1), (c.denominator, -1)):
+            f = 2
+            while f * f <= val and f < 1000:
+                e = 0
+                while val % f == 0:
+                    val //= f
+                    e += 1
+                if e:
+                    out = out.plus(self.term(
+                        {intern_key(('logc', f)): 1}, {}, Fraction(sign * e)))
+                f += 1
+            if val > 1:
+                out = out.plus(self.term(
+                    {intern_key(('logc', val)): 1}, {}, Fraction(sign)))
+        return out
+
+    def _log_base(self, b):
+        kind = _KIND.get(b)
+        key = _KEY.get(b)
+        if kind == 'expm':
+            return Lin(Fraction(0), {key[1]: Fraction(1)})
+        if kind == 'expq':
+            return Lin(Fraction(0), {key[1]: key[2]})
+        if kind == 'expc':
+            return Lin(key[1])
+        if kind == 'sqrtb':
+            return self._log_base(key[1]).scaled(Fraction(1, 2))
+        if kind == 'sqrtc':
+            return self._log_const(key[1]).scaled(Fraction(1, 2))
+        return self.term({intern_key(('logb', b)): 1}, {}, Fraction(1))
+
+    def _pos_lin(self, l):
+        """all terms positive -> the sum is positive"""
+        if l.const < 0 or not l.coef:
+            return l.const > 0
+        for k, v in l.coef.items():
+            if v <= 0:
+                return False
+            n, d = _parts(k)
+            for b in list(n) + list(d):
+                if b not in self.pos:
+                    return False
+        return True
+
+    def _log_of(self, l):
+        """log(c * prod b^e) = log c + sum e log b for positive c and b;
+        log of a sum: the common positive monomial is pulled out."""
+        if not l.coef:
+            if l.const <= 0:
+                return None
+            return self._log_const(l.const)
+        s = l.single()
+        if s is not None:
+            c, k = s
+            n, d = _parts(k)
+            base = None
+        else:
+            c, n, d, base = self._sumbase(l)
+            if base not in self.pos:
+                if c > 0 and self._pos_lin(l):
+                    self.pos.add(base)
+                    self.nz.add(base)
+                else:
+                    return None
+        if c <= 0:
+            return None
+        for b in list(n) + list(d):
+            if b not in self.pos:
+                return None
+        out = self._log_const(c)
+        for b, e in n.items():
+            out = out.plus(self._log_base(b).scaled(Fraction(e)))
+        for b, e in d.items():
+            out = out.plus(self._log_base(b).scaled(Fraction(-e)))
+        if base is not None:
+            out = out.plus(self._log_base(base))
+        return out
+
     def nonzero_bases(self, t):
         """Bases that must be non-zero if the term t is non-zero."""
         l = self.lin(t)
@@ -382,6 +492,12 @@ class Canon(object):
                 r = self._sqrt_of(g(u.args[1]))
                 if r is not None:
                     return r
+            elif u.args[0] == 'exp':
+                return self._exp_of(g(u.args[1]))
+            elif u.args[0] == 'log':
+                r = self._log_of(g(u.args[1]))
+                if r is not None:
+                    return r
             key = intern_key(
                 ('f', u.args[0]) + tuple(g(a).key() for a in u.args[1:]))
             return self.term({key: 1}, {}, Fraction(1))
@@ -441,3 +557,86 @@ class Canon(object):
             r = intern_key((op,))
         self._bool[c.id] = r
         return r
+
+
+# ---------------------------------------------------------------- validation
+class Unsupported(Exception):
+    pass
+
+
+def eval_key(k, env, fns, memo=None):
+    """Numerical value of an interned key (lin, mono or base): used to
+    validate the canonicaliser against the original term at a witness."""
+    import math
+    memo = {} if memo is None else memo
+    if k in memo:
+        return memo[k]
+    key = _KEY[k]
+    tag = key[0]
+    ev = lambda x: eval_key(x, env, fns, memo)
+    if tag == 'lin':
+        r = float(key[1])
+        for mk, c in key[2]:
+            r += float(c) * ev(mk)
+    elif tag == 'm':
+        r = 1.0
+        for b, e in key[1]:
+            r *= ev(b) ** e
+        for b, e in key[2]:
+            r /= ev(b) ** e
+    elif tag == 'v':
+        r = math.pi if key[1] == 'pi' and 'pi' not in env else env[key[1]]
+    elif tag == 'sum':
+        r = ev(key[1])
+    elif tag == 'f':
+        vals = [ev(a) for a in key[2:]]
+        name = key[1]
+        if name == 'log':
+            r = math.log(vals[0])
+        elif name == 'exp':
+            r = math.exp(vals[0])
+        elif name == 'sqrt':
+            r = math.sqrt(vals[0])
+        elif name == 'erf':
+            r = math.erf(vals[0])
+        else:
+            r = fns(name, *vals)
+    elif tag == 'sqrtc':
+        r = math.sqrt(float(key[1]))
+    elif tag == 'sqrtb':
+        r = math.sqrt(ev(key[1]))
+    elif tag == 'expc':
+        r = math.exp(float(key[1]))
+    elif tag == 'expm':
+        r = math.exp(ev(key[1]))
+    elif tag == 'expq':
+        r = math.exp(float(key[2]) * ev(key[1]))
+    elif tag == 'logc':
+        r = math.log(float(key[1]))
+    elif tag == 'logb':
+        r = math.log(ev(key[1]))
+    elif tag == 'ite':
+        r = ev(key[2]) if eval_bool(key[1], env, fns, memo) else ev(key[3])
+    else:
+        raise Unsupported(tag)
+    memo[k] = r
+    return r
+
+
+def eval_bool(k, env, fns, memo):
+    key = _KEY[k]
+    tag = key[0]
+    if tag in ('<', '<=', '=='):
+        d = eval_key(key[1], env, fns, memo)
+        return d < 0 if tag == '<' else (d <= 0 if tag == '<=' else d == 0)
+    if tag == 'not':
+        return not eval_bool(key[1], env, fns, memo)
+    if tag == 'and':
+        return all(eval_bool(a, env, fns, memo) for a in key[1:])
+    if tag == 'or':
+        return any(eval_bool(a, env, fns, memo) for a in key[1:])
+    if tag == 'true':
+        return True
+    if tag == 'false':
+        return False
+    raise Unsupported(tag)
